@@ -1167,12 +1167,12 @@ impl<'a, 'b> Gen<'a, 'b> {
     /// message families are those of the recorded error-probe corpus
     fn type_error(&mut self, inp: &Shape) -> Option<E> {
         let atoms: &[&str] = match inp {
-            Shape::Num => &[".foo", ".[0]", ".[]", "keys", "(. + \"a\")", "(. - \"a\")", "({} - .)", "([] - .)", "has(\"a\")", "sort", "(. * {})", "(\"a\" / .)", "to_entries", "explode", "ascii_downcase", "join(\",\")", "startswith(\"a\")", "ltrimstr(\"a\") | .x", "tojson | .[0]", "add", "flatten", "utf8bytelength", "fromjson", "(. % \"a\")", "unique", "min", "reverse | .[0]", "has(0)", "contains(\"a\")", "split(\",\")"],
+            Shape::Num => &[".foo", ".[0]", ".[]", "keys", "(. + \"a\")", "(. - \"a\")", "({} - .)", "([] - .)", "has(\"a\")", "sort", "(. * {})", "(\"a\" / .)", "to_entries", "explode", "ascii_downcase", "join(\",\")", "startswith(\"a\")", "ltrimstr(\"a\") | .x", "tojson | .[0]", "add", "flatten", "utf8bytelength", "fromjson", "(. % \"a\")", "unique", "min", "has(0)", "contains(\"a\")", "split(\",\")"],
             Shape::Str => &[".foo", ".[0]", ".[]", "keys", "(. + 1)", "(. - \"a\")", "(. - 1)", "has(\"a\")", "sort", "({} + .)", "([] + .)", "(. * \"b\")", "(. / 0)", "to_entries", "add", "flatten", "floor | .x", "(. % 2)", "unique", "has(0)", "contains(1)", "join(\",\")", "setpath([\"a\"]; 1)", "setpath([0]; 1)", "del(.a)", "(.a = 1)", "(.[0] = 1)", "map(.)", "group_by(.)", "sort_by(.)", "max"],
             Shape::Bool => &[".foo", ".[0]", ".[]", "keys", "length", "(. + 1)", "(. - 1)", "has(\"a\")", "sort", "(. * 2)", "(1 / .)", "to_entries", "explode", "tonumber", "add", "utf8bytelength", "ascii_upcase", "startswith(\"a\")", "contains(1)", "split(\",\")", "join(\",\")", "fromjson"],
             Shape::Null => &[".[]", "keys", "has(\"a\")", "sort", "(1 - .)", "(. * 2)", "(. / 2)", "explode", "tonumber", "utf8bytelength", "startswith(\"a\")", "to_entries", "(. % 2)"],
             Shape::Arr(_) | Shape::ArrOf(_) => &[".foo", ".[\"a\"]", "(. + 1)", "(. - 1)", "(. + \"a\")", "(. + {})", "(. * 2)", "(. / 2)", "has(\"a\")", "explode", "tonumber", "ascii_downcase", "startswith(\"a\")", "utf8bytelength", "ltrimstr(1) | .foo", "(. % 2)", "split(\",\")", "fromjson", "contains(\"a\")", "({} + .)", ".[\"a\"]?, .foo", "setpath([\"a\"]; 1)", "(.a = 1)", "del(.a)", "has(\"0\")"],
-            Shape::Obj(_) => &[".[0]", "(. + 1)", "(. - {})", "(. + [])", "(. * 2)", "(. / {})", "has(0)", "sort", "explode", "tonumber", "ascii_downcase", "utf8bytelength", "flatten", "unique", "startswith(\"a\")", "join(\",\") | .[0]", "(. % 2)", "split(\",\")", "fromjson", "contains(1)", "setpath([0]; 1)", "(.[0] = 1)", "del(.[0])", ".[1:2]", "floor", "sqrt", "min | .[0]", "reverse | .foo", "{(.): 1}"],
+            Shape::Obj(_) => &[".[0]", "(. + 1)", "(. - {})", "(. + [])", "(. * 2)", "(. / {})", "has(0)", "sort", "explode", "tonumber", "ascii_downcase", "utf8bytelength", "flatten", "unique", "startswith(\"a\")", "join(\",\") | .[0]", "(. % 2)", "split(\",\")", "fromjson", "contains(1)", "setpath([0]; 1)", "(.[0] = 1)", "del(.[0])", ".[1:2]", "floor", "sqrt", "min | .[0]", "{(.): 1}"],
             Shape::Any => return None,
         };
         let a = *self.u.pick(atoms);
